@@ -169,8 +169,15 @@ def main(prop, module):
         except Exception as ex:
             msg = None
             tb = traceback.extract_tb(ex.__traceback__)
+            if type(ex).__name__ == "RefError":
+                # the reference reader could not give the library's RESULT a meaning (checks read inputs under their
+                # own try): the circuit the library produced is ill-formed
+                msg = f"the circuit produced by the library has no meaning: {ex}"
+                tb = []
             lib = [f for f in tb if "/jaqalpaq/" in f.filename]
-            if lib and (tb[-1] in lib or "/jaqalpaq/" in tb[-2].filename if len(tb) > 1 else False):
+            if msg:
+                pass
+            elif lib and (tb[-1] in lib or "/jaqalpaq/" in tb[-2].filename if len(tb) > 1 else False):
                 # an exception other than JaqalError escaped from the library itself
                 msg = f"{type(ex).__name__} escaped from {os.path.basename(lib[-1].filename)}:{lib[-1].lineno}: {ex}"
             elif len(errors) < 3:
